@@ -72,4 +72,7 @@ def run(tier):
     rep.assumptions += ["clock-dependent commands are excluded (the handler runs on the wall clock)",
                         "after a malformed frame the error reply and the untouched earlier replies are required; commands that arrive in later reads are owed their replies unless the handler has closed the connection (a handler that keeps reading but stays silent hangs the client)",
                         "the transport may take fewer bytes than offered in one write call (short writes): every reply byte must still arrive"]
+    # extension, no verdict: the ACL subsystem (its handlers live in the connection handler's file) against Acl.tla
+    from checks import acl_ext
+    acl_ext.run_ext(rep, wd, thorough)
     return rep.finish()
